@@ -320,6 +320,8 @@ def stage_case(case, nfilt):
     c['filters'] = case['filters'][:nfilt]
     c['theta'] = case['theta'][:nfilt]
     c['sources'] = [dict(s, flags=s['flags'][:nfilt], errs=s['errs'][:nfilt]) for s in case['sources']]
+    # every source is still fitted in the shorter band set (a fit file without any record cannot be read back)
+    c['n_data_min'] = max(1, min([case['n_data_min']] + [sum(1 for f in s['flags'] if f in (1, 4)) for s in c['sources']]))
     return c
 
 
